@@ -49,7 +49,7 @@ from typing_extensions import Unpack, NotRequired, Required, TypedDict
 from zoneinfo import ZoneInfo
 from mashumaro import DataClassDictMixin, field_options, pass_through
 from mashumaro.config import BaseConfig
-from mashumaro.types import Alias
+from mashumaro.types import Alias, SerializationStrategy
 from mashumaro.dialect import Dialect
 from mashumaro.codecs.basic import BasicEncoder as _BE
 def _wire(x):
@@ -182,6 +182,13 @@ def gen_fields_types(r, tbl, depth, n, probe):
     return [gen_type(r, tbl, depth - 1, probe) for _ in range(n)]
 
 
+# return annotations of overriding serialization functions (values of these types are their own basic form)
+SER_RETURN_TYPES = [("str",), ("int",), ("bool",), ("str",), ("int",),
+                    ("list", ("int",)), ("list", ("str",)), ("dict", ("str",), ("int",)), ("dict", ("str",), ("list", ("int",))),
+                    ("opt", ("int",)), ("list", ("opt", ("str",))), ("tuplevar", ("int",)), ("list", ("list", ("bool",))),
+                    ("any",)]     # ("any",): the function has no return annotation
+
+
 def gen_strategy_class(r, tbl: Table):
     """a class whose Config.serialization_strategy registers functions under an origin class (list / dict / deque), an
     Annotated alias and an exact type; every other field is a scalar, so no unintended position is captured"""
@@ -283,13 +290,18 @@ def gen_data(r, tbl: Table, depth, probe, clsname=None, generic=False):
         f["ser"] = None
         # overridden serialization of a field (default options otherwise): a function with a return annotation
         # (the schema describes the annotated return type) or pass_through (the schema describes the declared type)
-        if not generic and not cfg["omit_none"] and f["type"][0] != "nt" and r.random() < 0.08:
+        if not generic and not cfg["omit_none"] and f["type"][0] != "nt" and r.random() < 0.1:
             # the function is applied to non-None values only, so the declared type must not be nullable (known
-            # finding schema-overridden-nullable); a container return annotation makes build_json_schema recurse
-            # without end (C20's business): scalar return types only
-            if r.random() < 0.6 and not nullable_spec(f["type"]) and not contains_tvar(f["type"]):
-                rt = r.choice([("str",), ("int",), ("bool",)])
+            # finding schema-overridden-nullable).  The override is given as field option `serialize`, or as field-level
+            # `serialization_strategy` (a dict or a SerializationStrategy object); the return annotation may be a container
+            # (since /repo 42523b8 the override replaces the field type ONCE and is not re-applied to the element types)
+            # or missing (the schema then describes Any).  The function returns basic JSON values: the serializer emits
+            # its result unchanged.
+            if r.random() < 0.6 and (probe or not nullable_spec(f["type"])) and not contains_tvar(f["type"]):
+                rt = r.choice(SER_RETURN_TYPES)
                 f["ser"] = ("fn", rt, gen_value(r, rt, tbl, False, 2), f"_ser_{name}_{i}")
+                f["ser_via"] = r.choice(["field", "field", "field_strategy_dict", "field_strategy_obj"])
+                f["ser_annot"] = rt != ("any",)
             elif not contains_tvar(f["type"]):
                 f["type"] = r.choice([("int",), ("str",), ("bool",), ("list", ("int",)), ("dict", ("str",), ("int",)), ("opt", ("int",))])
                 f["ser"] = ("pass",)
@@ -670,9 +682,18 @@ def decl_src(d, tbl: Table) -> str:
                 fo.append(f"serialize={f['nt_override']!r}")
             if f.get("ser") is not None:
                 if f["ser"][0] == "fn":
-                    lines.append(f"def {f['ser'][3]}(v) -> {ty_src(f['ser'][1], tbl, nts)}:\n    return {val_src(f['ser'][2])}")
-                    if f.get("ser_via") != "config":
-                        fo.append(f"serialize={f['ser'][3]}")
+                    ret = f" -> {ty_src(f['ser'][1], tbl, nts)}" if f.get("ser_annot", True) else ""
+                    via = f.get("ser_via") or "field"
+                    if via == "field_strategy_obj":
+                        lines.append(f"class {f['ser'][3]}(SerializationStrategy):\n    def serialize(self, v){ret}:\n        return {val_src(f['ser'][2])}\n"
+                                     f"    def deserialize(self, v):\n        return v")
+                        fo.append(f"serialization_strategy={f['ser'][3]}()")
+                    else:
+                        lines.append(f"def {f['ser'][3]}(v){ret}:\n    return {val_src(f['ser'][2])}")
+                        if via == "field":
+                            fo.append(f"serialize={f['ser'][3]}")
+                        elif via == "field_strategy_dict":
+                            fo.append(f"serialization_strategy={{'serialize': {f['ser'][3]}}}")
                 else:
                     fo.append("serialize=pass_through")
             if fo:
